@@ -92,69 +92,327 @@ def genericTail (sep rd : List UInt8) : List UInt8 :=
 /-- the labels in wire form, without the root label -/
 def wireLabels (ls : List (List UInt8)) : List UInt8 := ls.flatMap fun l => UInt8.ofNat l.length :: l
 
-/-! ### records and files — the presentation subset of `C23_records_partial`
+/-! ### mnemonics (RFC 1035 §3.2.2, §3.2.4; RFC 3596; RFC 2782) -/
 
-  One entry per line.  Records: `[owner] [ttl] [class] TYPEnnn \# len [hex] [;comment]`, fields
-  separated by runs of blanks; the owner is an absolute name, a relative name (completed with the
-  origin), `@` (the origin) — names in any mix of octet forms — or omitted (leading blanks: same
-  owner as before); TTL and class are written (decimal, `CLASSnnn`, in either order) or omitted.  Directives:
-  `$ORIGIN <absolute name>`, `$TTL <decimal>`.  Blank and comment-only lines.  Not in this subset
-  (see C23.lean): mnemonics, typed RDATA, parentheses, CRLF, a last line
-  without newline. -/
+def upperOctet (b : UInt8) : UInt8 := if 97 ≤ b.toNat ∧ b.toNat ≤ 122 then b - 32 else b
 
-inductive POwner where
-  | same
+/-- TYPE mnemonics a zone file may use, with their values -/
+def typeMnemonics : List (String × Nat) :=
+  [("A", 1), ("NS", 2), ("MD", 3), ("MF", 4), ("CNAME", 5), ("SOA", 6), ("MB", 7), ("MG", 8), ("MR", 9),
+   ("WKS", 11), ("PTR", 12), ("HINFO", 13), ("MINFO", 14), ("MX", 15), ("TXT", 16), ("AAAA", 28), ("SRV", 33)]
+
+/-- CLASS mnemonics -/
+def classMnemonics : List (String × Nat) := [("IN", 1), ("CH", 3), ("HS", 4)]
+
+/-- `text` is the mnemonic for `n` in some mix of upper and lower case -/
+def mnemonicFor (tbl : List (String × Nat)) (text : List UInt8) (n : Nat) : Prop :=
+  ∃ m, (m, n) ∈ tbl ∧ text.map upperOctet = m.toUTF8.toList
+
+/-- a TYPE or CLASS field: a mnemonic (any case) or the RFC 3597 form -/
+inductive PCode where
+  | generic (n : Nat)
+  | mnemonic (text : List UInt8) (n : Nat)
+  deriving Repr, Inhabited
+
+def PCode.value : PCode → Nat
+  | .generic n => n
+  | .mnemonic _ n => n
+
+def typeText : PCode → List UInt8
+  | .generic n => renderType n
+  | .mnemonic t _ => t
+
+def classText : PCode → List UInt8
+  | .generic n => renderClass n
+  | .mnemonic t _ => t
+
+/-! ### names and character-strings as written -/
+
+inductive PName where
   | abs (ls : List PLabel)
   | rel (ls : List PLabel) (l : PLabel)      -- labels `ls ++ [l]`, no trailing dot
   | atSign
   deriving Repr, Inhabited
 
-structure PRecord where
-  owner : POwner
-  ttl : Option Nat
-  cls : Option Nat
-  clsFirst : Bool          -- class written before the TTL (matters when both are written)
-  ty : Nat
-  rdata : List UInt8
-  sep : List UInt8
-  trail : List UInt8
-  comment : List UInt8
-  deriving Repr, Inhabited
-
-inductive PEntry where
-  | blank (ws comment : List UInt8)
-  | record (p : PRecord)
-  | origin (ls : List PLabel) (sep trail comment : List UInt8)
-  | ttl (n : Nat) (sep trail comment : List UInt8)
-  deriving Repr, Inhabited
-
-def ownerText : POwner → List UInt8
-  | .same => []
+def nameText : PName → List UInt8
   | .abs ls => renderAbsName ls
   | .rel ls l => renderLabels (ls ++ [l])
   | .atSign => [64]
 
-/-- the TTL and class fields, each written or omitted, in either order -/
-def ttlClassText (sep : List UInt8) (ttl cls : Option Nat) (clsFirst : Bool) : List UInt8 :=
-  let t := match ttl with
-    | some t => decimal t ++ sep
-    | none => []
-  let c := match cls with
-    | some c => renderClass c ++ sep
-    | none => []
-  if clsFirst then c ++ t else t ++ c
+def labelLines (ls : List PLabel) : Nat := (ls.map fun l => (l.filter fun x => x.2 = .esc ∧ x.1 = 10).length).sum
+
+/-- newlines inside a name (written `\` + newline) -/
+def nameLines : PName → Nat
+  | .abs ls => labelLines ls
+  | .rel ls l => labelLines (ls ++ [l])
+  | .atSign => 0
+
+/-- the name denoted: an absolute name as written; a relative name completed with the origin (if
+    there is one and the result fits in 255 octets); the origin for `@` -/
+def nameWire (origin : Option (List UInt8)) : PName → Option (List UInt8)
+  | .abs ls => some (wireName (ls.map labelOctets))
+  | .rel ls l =>
+    match origin with
+    | some o =>
+      if (wireLabels ((ls ++ [l]).map labelOctets)).length + o.length ≤ 255 then
+        some (wireLabels ((ls ++ [l]).map labelOctets) ++ o)
+      else none
+    | none => none
+  | .atSign => origin
+
+/-- a `<character-string>`: quoted or not, each octet in some form -/
+structure PString where
+  quoted : Bool
+  octets : List (UInt8 × OctetForm)
+  deriving Repr, Inhabited
+
+def stringText (s : PString) : List UInt8 :=
+  if s.quoted then 34 :: (s.octets.flatMap fun x => renderOctet x.1 x.2) ++ [34]
+  else s.octets.flatMap fun x => renderOctet x.1 x.2
+
+def stringOctets (s : PString) : List UInt8 := s.octets.map (·.1)
+
+/-- newlines the reader counts inside a string: raw ones (quoted strings) and `\` + newline -/
+def stringLines (s : PString) : Nat := (s.octets.filter fun x => x.1 = 10 ∧ x.2 ≠ .dec).length
+
+/-- inside quotes everything but `"` and `\` may be written raw; outside, nothing special -/
+def stringFormOK (quoted : Bool) (b : UInt8) : OctetForm → Bool
+  | .raw => if quoted then b != 34 && b != 92 else !special b && b != 34
+  | .esc => !isDigitOctet b
+  | .dec => true
+
+/-! ### gaps between fields and line ends (RFC 1035 §5.1: blanks, parentheses, comments) -/
+
+/-- one element of the space between two fields: a blank, a parenthesis, or — inside
+    parentheses — the end of a line with an optional comment -/
+inductive GapItem where
+  | blank (tab : Bool)
+  | openParen
+  | closeParen
+  | newline (comment : List UInt8) (crlf : Bool)
+  deriving Repr, DecidableEq, Inhabited
+
+abbrev PGap := List GapItem
+
+/-- a line ending: LF or CRLF -/
+def eolText (crlf : Bool) : List UInt8 := if crlf then [13, 10] else [10]
+
+def gapItemText : GapItem → List UInt8
+  | .blank tab => [if tab then 9 else 32]
+  | .openParen => [40]
+  | .closeParen => [41]
+  | .newline c crlf => c ++ eolText crlf
+
+def gapText (g : PGap) : List UInt8 := g.flatMap gapItemText
+
+/-- line ends inside a gap -/
+def gapLines : PGap → Nat
+  | [] => 0
+  | .newline .. :: g => gapLines g + 1
+  | _ :: g => gapLines g
+
+/-- "inside parentheses" after a gap, given the state before it; `none` if parentheses nest, one
+    closes that was not opened, or a line ends outside parentheses (that ends the record) -/
+def gapRun : Bool → PGap → Option Bool
+  | p, [] => some p
+  | p, .blank _ :: g => gapRun p g
+  | false, .openParen :: g => gapRun true g
+  | true, .openParen :: _ => none
+  | true, .closeParen :: g => gapRun false g
+  | false, .closeParen :: _ => none
+  | true, .newline .. :: g => gapRun true g
+  | false, .newline .. :: _ => none
+
+/-- the `i`-th gap of a list; a single blank if the list is shorter -/
+def gapAt (gs : List PGap) (i : Nat) : PGap := gs.getD i [.blank false]
+
+/-! ### RDATA as written -/
+
+inductive PRdata where
+  | generic (rd : List UInt8)                                  -- `\# len hex`, any class and type
+  | a (a b c d : Nat)                                          -- IN A: dotted quad
+  | name (n : PName)                                           -- NS MD MF CNAME MB MG MR PTR
+  | mx (pref : Nat) (n : PName)
+  | soa (m r : PName) (serial refresh retry expire minimum : Nat)
+  | minfo (r e : PName)
+  | srv (prio weight port : Nat) (n : PName)                   -- IN SRV
+  | txt (s : PString) (ss : List PString)
+  | hinfo (cpu os : PString)
+  deriving Repr, Inhabited
+
+def u16Wire (n : Nat) : List UInt8 := [UInt8.ofNat (n / 256 % 256), UInt8.ofNat (n % 256)]
+def u32Wire (n : Nat) : List UInt8 :=
+  [UInt8.ofNat (n / 16777216 % 256), UInt8.ofNat (n / 65536 % 256), UInt8.ofNat (n / 256 % 256), UInt8.ofNat (n % 256)]
+
+def stringWire (s : PString) : List UInt8 := UInt8.ofNat s.octets.length :: stringOctets s
+
+/-- which typed syntax belongs to which class and type -/
+def kindOK (cls ty : Nat) : PRdata → Bool
+  | .generic _ => true
+  | .a .. => cls == 1 && ty == 1
+  | .name _ => [2, 3, 4, 5, 7, 8, 9, 12].contains ty
+  | .mx .. => ty == 15
+  | .soa .. => ty == 6
+  | .minfo .. => ty == 14
+  | .srv .. => cls == 1 && ty == 33
+  | .txt .. => ty == 16
+  | .hinfo .. => ty == 13
+
+/-- the second and later strings of TXT, each after its gap -/
+def txtRest (G : Nat → PGap) : Nat → List PString → List UInt8
+  | _, [] => []
+  | i, x :: xs => gapText (G i) ++ (stringText x ++ txtRest G (i + 1) xs)
+
+/-- the RDATA field(s) as text; `G i` is the gap after the `i`-th field -/
+def rdataText (G : Nat → PGap) : PRdata → List UInt8
+  | .generic rd =>
+    92 :: 35 :: (gapText (G 0) ++ (decimal rd.length ++ (if rd.isEmpty then [] else gapText (G 1) ++ renderHex rd)))
+  | .a a b c d => decimal a ++ 46 :: (decimal b ++ 46 :: (decimal c ++ 46 :: decimal d))
+  | .name n => nameText n
+  | .mx p n => decimal p ++ (gapText (G 0) ++ nameText n)
+  | .soa m r s1 s2 s3 s4 s5 =>
+    nameText m ++ (gapText (G 0) ++ (nameText r ++ (gapText (G 1) ++ (decimal s1 ++ (gapText (G 2) ++
+      (decimal s2 ++ (gapText (G 3) ++ (decimal s3 ++ (gapText (G 4) ++ (decimal s4 ++ (gapText (G 5) ++
+        decimal s5)))))))))))
+  | .minfo r e => nameText r ++ (gapText (G 0) ++ nameText e)
+  | .srv p w port n =>
+    decimal p ++ (gapText (G 0) ++ (decimal w ++ (gapText (G 1) ++ (decimal port ++ (gapText (G 2) ++ nameText n)))))
+  | .txt s ss => stringText s ++ txtRest G 0 ss
+  | .hinfo c o => stringText c ++ (gapText (G 0) ++ stringText o)
+
+/-- number of gaps inside the RDATA -/
+def rdataGaps : PRdata → Nat
+  | .generic rd => if rd.isEmpty then 1 else 2
+  | .a .. => 0
+  | .name _ => 0
+  | .mx .. => 1
+  | .soa .. => 6
+  | .minfo .. => 1
+  | .srv .. => 3
+  | .txt _ ss => ss.length
+  | .hinfo .. => 1
+
+def txtLines (G : Nat → PGap) : Nat → List PString → Nat
+  | _, [] => 0
+  | i, x :: xs => gapLines (G i) + stringLines x + txtLines G (i + 1) xs
+
+/-- line ends inside the RDATA text: in names, strings and gaps -/
+def rdataLines (G : Nat → PGap) : PRdata → Nat
+  | .generic rd => gapLines (G 0) + (if rd.isEmpty then 0 else gapLines (G 1))
+  | .a .. => 0
+  | .name n => nameLines n
+  | .mx _ n => gapLines (G 0) + nameLines n
+  | .soa m r .. =>
+    nameLines m + gapLines (G 0) + nameLines r + gapLines (G 1) + gapLines (G 2) + gapLines (G 3) + gapLines (G 4) +
+      gapLines (G 5)
+  | .minfo r e => nameLines r + gapLines (G 0) + nameLines e
+  | .srv _ _ _ n => gapLines (G 0) + gapLines (G 1) + gapLines (G 2) + nameLines n
+  | .txt s ss => stringLines s + txtLines G 0 ss
+  | .hinfo c o => stringLines c + gapLines (G 0) + stringLines o
+
+/-- the RDATA denoted (RFC 1035 §3.3, RFC 2782 wire formats); `none` if a name cannot be completed -/
+def rdataWire (origin : Option (List UInt8)) : PRdata → Option (List UInt8)
+  | .generic rd => some rd
+  | .a a b c d => some [UInt8.ofNat a, UInt8.ofNat b, UInt8.ofNat c, UInt8.ofNat d]
+  | .name n => nameWire origin n
+  | .mx p n => (nameWire origin n).map fun w => u16Wire p ++ w
+  | .soa m r s1 s2 s3 s4 s5 =>
+    match nameWire origin m, nameWire origin r with
+    | some wm, some wr => some (wm ++ wr ++ u32Wire s1 ++ u32Wire s2 ++ u32Wire s3 ++ u32Wire s4 ++ u32Wire s5)
+    | _, _ => none
+  | .minfo r e =>
+    match nameWire origin r, nameWire origin e with
+    | some wr, some we => some (wr ++ we)
+    | _, _ => none
+  | .srv p w port n => (nameWire origin n).map fun wn => u16Wire p ++ u16Wire w ++ u16Wire port ++ wn
+  | .txt s ss => some ((s :: ss).flatMap stringWire)
+  | .hinfo c o => some (stringWire c ++ stringWire o)
+
+/-! ### records and files — the presentation subset of `C23_records_partial`
+
+  One entry per line — or, with parentheses, several.  Records: `[owner] [ttl] [class] type rdata
+  [;comment]`.  The gaps between the fields and after the last one are any mix of blanks, `(`,
+  `)` and — inside parentheses — line ends (LF or CRLF) with optional comments.  Lines end with
+  LF or CRLF.  Owner: an absolute name, a relative name (completed with the origin), `@`
+  (the origin) — names in any mix of octet forms — or omitted (leading blanks: same owner as
+  before).  TTL and class written (decimal; mnemonic in any case or `CLASSnnn`; in either order)
+  or omitted.  Type: mnemonic in any case or `TYPEnnn`.  RDATA: the RFC 3597 form `\# len hex`
+  for any class and type, or the typed syntax of A, NS/MD/MF/CNAME/MB/MG/MR/PTR, MX, SOA, MINFO,
+  SRV, TXT, HINFO (names relative / absolute / `@`; character-strings quoted or unquoted with
+  escapes).  Directives: `$ORIGIN <absolute name>`, `$TTL <decimal>`,
+  `$INCLUDE <path> [<origin>]`.  Blank and comment-only
+  lines.  Not in this subset (see C23.lean): AAAA, WKS and Chaosnet A typed syntax, parentheses
+  in directives, a last line without newline. -/
+
+inductive POwner where
+  | same
+  | named (n : PName)
+  deriving Repr, Inhabited
+
+structure PRecord where
+  owner : POwner
+  ttl : Option Nat
+  cls : Option PCode
+  clsFirst : Bool          -- class written before the TTL (matters when both are written)
+  ty : PCode
+  rdata : PRdata
+  head : List PGap         -- gap 0: after the owner (or before the first field when the owner is
+                           -- omitted: it then starts with a blank); gaps 1, 2: after the first and
+                           -- second of TTL and class that are written
+  gaps : List PGap         -- gap 0: between type and RDATA; gap i+1: after the i-th RDATA field
+  tail : PGap              -- after the last field (closes the parentheses, if open)
+  comment : List UInt8
+  crlf : Bool
+  deriving Repr, Inhabited
+
+inductive PEntry where
+  | blank (ws comment : List UInt8) (crlf : Bool)
+  | record (p : PRecord)
+  | origin (ls : List PLabel) (sep trail comment : List UInt8) (crlf : Bool)
+  | ttl (n : Nat) (sep trail comment : List UInt8) (crlf : Bool)
+  /-- `$INCLUDE <path> [<origin>]`: the path a string (quoted or not), the origin a name -/
+  | incl (path : PString) (origin : Option PName) (sep sep2 trail comment : List UInt8) (crlf : Bool)
+  deriving Repr, Inhabited
+
+def ownerText : POwner → List UInt8
+  | .same => []
+  | .named n => nameText n
+
+/-- the TTL and class fields, each written or omitted, in either order; `gA` follows the first
+    field that is written, `gB` the second -/
+def ttlClassText (gA gB : List UInt8) (ttl : Option Nat) (cls : Option PCode) (clsFirst : Bool) : List UInt8 :=
+  match ttl, cls with
+  | some t, some c =>
+    if clsFirst then classText c ++ (gA ++ (decimal t ++ gB)) else decimal t ++ (gA ++ (classText c ++ gB))
+  | some t, none => decimal t ++ gA
+  | none, some c => classText c ++ gA
+  | none, none => []
+
+/-- line ends in the gaps after the TTL and class fields that are written -/
+def ttlClassLines (a b : Nat) (ttl : Option Nat) (cls : Option PCode) : Nat :=
+  match ttl, cls with
+  | some _, some _ => a + b
+  | none, none => 0
+  | _, _ => a
 
 def renderRecord (p : PRecord) : List UInt8 :=
-  ownerText p.owner ++ p.sep ++ ttlClassText p.sep p.ttl p.cls p.clsFirst ++
-  renderType p.ty ++ p.sep ++ 92 :: 35 :: (genericTail p.sep p.rdata ++ (p.trail ++ p.comment ++ [10]))
+  ownerText p.owner ++ gapText (gapAt p.head 0) ++
+  ttlClassText (gapText (gapAt p.head 1)) (gapText (gapAt p.head 2)) p.ttl p.cls p.clsFirst ++
+  typeText p.ty ++ gapText (gapAt p.gaps 0) ++ rdataText (fun i => gapAt p.gaps (i + 1)) p.rdata ++
+  (gapText p.tail ++ (p.comment ++ eolText p.crlf))
 
 def renderEntry : PEntry → List UInt8
-  | .blank ws comment => ws ++ comment ++ [10]
+  | .blank ws comment crlf => ws ++ comment ++ eolText crlf
   | .record p => renderRecord p
-  | .origin ls sep trail comment =>
-    [36, 79, 82, 73, 71, 73, 78] ++ sep ++ renderAbsName ls ++ trail ++ comment ++ [10]   -- `$ORIGIN`
-  | .ttl n sep trail comment =>
-    [36, 84, 84, 76] ++ sep ++ decimal n ++ trail ++ comment ++ [10]                       -- `$TTL`
+  | .origin ls sep trail comment crlf =>
+    [36, 79, 82, 73, 71, 73, 78] ++ sep ++ renderAbsName ls ++ trail ++ comment ++ eolText crlf   -- `$ORIGIN`
+  | .ttl n sep trail comment crlf =>
+    [36, 84, 84, 76] ++ sep ++ decimal n ++ trail ++ comment ++ eolText crlf                       -- `$TTL`
+  | .incl path origin sep sep2 trail comment crlf =>
+    [36, 73, 78, 67, 76, 85, 68, 69] ++ sep ++ stringText path ++                                  -- `$INCLUDE`
+      (match origin with
+       | some n => sep2 ++ nameText n
+       | none => []) ++ trail ++ comment ++ eolText crlf
 
 def renderFile (es : List PEntry) : List UInt8 := es.flatMap renderEntry
 
@@ -165,7 +423,7 @@ structure SCtx where
   prevTtl : Option Nat := none
   prevClass : Option Nat := none
   defaultTtl : Option Nat := none
-  deriving Repr, Inhabited
+  deriving Repr, DecidableEq, Inhabited
 
 /-- a denoted record: line, owner (wire form), TTL, class, type, RDATA -/
 structure SRecord where
@@ -180,29 +438,23 @@ structure SRecord where
 /-- RFC 2181 §8: a TTL with the most significant bit set is treated as zero -/
 def ttlValue (t : Nat) : Nat := if t > 2147483647 then 0 else t
 
-def labelLines (ls : List PLabel) : Nat := (ls.map fun l => (l.filter fun x => x.2 = .esc ∧ x.1 = 10).length).sum
-
-/-- newlines inside the owner text (written `\` + newline): the lines a record spans beyond one -/
+/-- newlines inside the owner text: the lines a record spans beyond one come from here and from
+    the RDATA -/
 def ownerLines : POwner → Nat
   | .same => 0
-  | .abs ls => labelLines ls
-  | .rel ls l => labelLines (ls ++ [l])
-  | .atSign => 0
+  | .named n => nameLines n
 
-/-- the owner a record line denotes: the written absolute name; a relative name completed with
-    the origin (if that fits in 255 octets); the origin for `@`; the previous owner if omitted -/
+/-- the lines a record's text occupies beyond the first -/
+def recordLines (p : PRecord) : Nat :=
+  ownerLines p.owner + gapLines (gapAt p.head 0) +
+    ttlClassLines (gapLines (gapAt p.head 1)) (gapLines (gapAt p.head 2)) p.ttl p.cls +
+    gapLines (gapAt p.gaps 0) + rdataLines (fun i => gapAt p.gaps (i + 1)) p.rdata + gapLines p.tail
+
+/-- the owner a record line denotes -/
 def ownerOf (c : SCtx) (p : PRecord) : Option (List UInt8) :=
   match p.owner with
   | .same => c.prevOwner
-  | .abs ls => some (wireName (ls.map labelOctets))
-  | .rel ls l =>
-    match c.origin with
-    | some o =>
-      if (wireLabels ((ls ++ [l]).map labelOctets)).length + o.length ≤ 255 then
-        some (wireLabels ((ls ++ [l]).map labelOctets) ++ o)
-      else none
-    | none => none
-  | .atSign => c.origin
+  | .named n => nameWire c.origin n
 
 /-- the TTL: the written one, else the `$TTL` default, else the previous record's (RFC 2308 §4) -/
 def ttlOf (c : SCtx) (p : PRecord) : Option Nat :=
@@ -213,28 +465,59 @@ def ttlOf (c : SCtx) (p : PRecord) : Option Nat :=
 /-- the class: the written one, else the previous record's -/
 def clsOf (c : SCtx) (p : PRecord) : Option Nat :=
   match p.cls with
-  | some k => some k
+  | some k => some k.value
   | none => c.prevClass
 
-/-- the record a presentation denotes in a context, and the context after it; `none` when
-    something omitted has nothing to default to -/
-def denoteRecord (c : SCtx) (line : Nat) (p : PRecord) : Option (SRecord × SCtx) :=
+/-- the RDATA is written in a syntax of this class and type and, in RFC 3597 form, is valid for them -/
+def rdataOK (valid : Nat → Nat → List UInt8 → Bool) (cls ty : Nat) (rdata : PRdata) (rd : List UInt8) : Bool :=
+  kindOK cls ty rdata &&
+    (match rdata with
+     | .generic _ => valid cls ty rd
+     | _ => true)
+
+/-- The record a presentation denotes in a context, and the context after it; `none` when
+    something omitted has nothing to default to, a name cannot be completed, the RDATA is written
+    in the typed syntax of another class or type, or RDATA given in RFC 3597 form is not valid
+    for the class and type (`valid`: RFC 3597 §5 requires known types to be checked). -/
+def denoteRecord (valid : Nat → Nat → List UInt8 → Bool) (c : SCtx) (line : Nat) (p : PRecord) :
+    Option (SRecord × SCtx) :=
   match ownerOf c p, ttlOf c p, clsOf c p with
   | some owner, some ttl, some cls =>
-    some (⟨line, owner, ttl, cls, p.ty, p.rdata⟩,
-          { c with prevOwner := some owner, prevTtl := some ttl, prevClass := some cls })
+    match rdataWire c.origin p.rdata with
+    | some rd =>
+      if rdataOK valid cls p.ty.value p.rdata rd then
+        some (⟨line, owner, ttl, cls, p.ty.value, rd⟩,
+              { c with prevOwner := some owner, prevTtl := some ttl, prevClass := some cls })
+      else none
+    | none => none
   | _, _, _ => none
 
-/-- the records a file denotes, with their line numbers -/
-def denoteFile : List PEntry → SCtx → Nat → Option (List SRecord)
+/-- what a file denotes, entry by entry: records, and requests to include another file -/
+inductive SItem where
+  | record (r : SRecord)
+  /-- `$INCLUDE` at `line`: the path, and the origin the included file starts with (the one
+      given, or the current one) -/
+  | incl (line : Nat) (path : List UInt8) (origin : Option (List UInt8))
+  deriving Repr, DecidableEq, Inhabited
+
+/-- the records (and include requests) a file denotes, in order, with their line numbers.  An
+    `$INCLUDE` leaves the context as it is (what the included file does to it is C25). -/
+def denoteFile (valid : Nat → Nat → List UInt8 → Bool) : List PEntry → SCtx → Nat → Option (List SItem)
   | [], _, _ => some []
-  | .blank _ _ :: es, c, line => denoteFile es c (line + 1)
-  | .origin ls _ _ _ :: es, c, line =>
-    denoteFile es { c with origin := some (wireName (ls.map labelOctets)) } (line + labelLines ls + 1)
-  | .ttl n _ _ _ :: es, c, line => denoteFile es { c with defaultTtl := some (ttlValue n) } (line + 1)
+  | .blank _ _ _ :: es, c, line => denoteFile valid es c (line + 1)
+  | .origin ls _ _ _ _ :: es, c, line =>
+    denoteFile valid es { c with origin := some (wireName (ls.map labelOctets)) } (line + labelLines ls + 1)
+  | .ttl n _ _ _ _ :: es, c, line => denoteFile valid es { c with defaultTtl := some (ttlValue n) } (line + 1)
+  | .incl path origin _ _ _ _ _ :: es, c, line => do
+    let o ← match origin with
+      | some n => (nameWire c.origin n).map some
+      | none => some c.origin
+    let rest ← denoteFile valid es c
+      (line + stringLines path + (match origin with | some n => nameLines n | none => 0) + 1)
+    pure (.incl line (stringOctets path) o :: rest)
   | .record p :: es, c, line => do
-    let (r, c') ← denoteRecord c line p
-    let rest ← denoteFile es c' (line + ownerLines p.owner + 1)
-    pure (r :: rest)
+    let (r, c') ← denoteRecord valid c line p
+    let rest ← denoteFile valid es c' (line + recordLines p + 1)
+    pure (.record r :: rest)
 
 end QV.Spec.ZF
